@@ -77,7 +77,60 @@ theorem tokens_mutual (cfg : PCfg) :
     (fun st r => st.elen ≤ r.2.elen ∧ ((r.1.isNone = false ∧ FL r.2 = FC st ++ F r.1.flat) ∨ st.elen < r.2.elen))
     (fun st r => st.elen ≤ r.2.elen ∧ ((r.1.isNone = false ∧ FL r.2 = FC st ++ F r.1.flat) ∨ st.elen < r.2.elen))
     ?_ ?_ ?_ ?_ ?_ ?_ ?_ ?_ ?_ ?_ ?_ ?_ ?_ ?_ ?_ ?_ ?_ ?_ ?_ ?_ ?_ ?_
-  case refine_7 =>
+  · -- parseStatementI
+    intro pS bS ih_pS ih_bS is st r h
+    replace ih_pS := curry2 ih_pS; replace ih_bS := curry1 ih_bS
+    dsimp only at ih_pS ih_bS ⊢
+    obtain ⟨x, st'⟩ := r
+    have e0 := FL_eq st
+    pdecompD h [ih_pS, ih_bS, tok_parseFunctionParameters]
+    all_goals clear ih_pS ih_bS
+    all_goals tok_close
+  · -- baseParseStatement
+    intro f1 f2 f3 f4 f5 f6 f7 f8 ih_f1 ih_f2 ih_f3 ih_f4 ih_f5 ih_f6 ih_f7 ih_f8  st r h
+    replace ih_f1 := curry1 ih_f1; replace ih_f2 := curry1 ih_f2; replace ih_f3 := curry1 ih_f3; replace ih_f4 := curry1 ih_f4; replace ih_f5 := curry1 ih_f5; replace ih_f6 := curry1 ih_f6; replace ih_f7 := curry1 ih_f7; replace ih_f8 := curry1 ih_f8
+    dsimp only at ih_f1 ih_f2 ih_f3 ih_f4 ih_f5 ih_f6 ih_f7 ih_f8 ⊢
+    obtain ⟨x, st'⟩ := r
+    split at h
+    all_goals first | exact ih_f1 _ _ _ h | exact ih_f2 _ _ _ h | exact ih_f3 _ _ _ h | exact ih_f4 _ _ _ h
+                    | exact ih_f5 _ _ _ h | exact ih_f6 _ _ _ h | exact ih_f7 _ _ _ h | exact ih_f8 _ _ _ h
+  · -- parseExpressionStatement
+    intro pE ih_pE  st r h
+    replace ih_pE := curry3 ih_pE
+    dsimp only at ih_pE ⊢
+    obtain ⟨x, st'⟩ := r
+    have e0 := FL_eq st
+    pdecompD h [ih_pE, tok_parseFunctionParameters]
+    all_goals clear ih_pE
+    all_goals tok_close
+  · -- parseExpressionI
+    intro pE pR pP ih_pE ih_pR ih_pP is prec st r h
+    replace ih_pE := curry3 ih_pE; replace ih_pR := curry3 ih_pR; replace ih_pP := curry1 ih_pP
+    dsimp only at ih_pE ih_pR ih_pP ⊢
+    obtain ⟨x, st'⟩ := r
+    have e0 := FL_eq st
+    pdecompD h [ih_pE, ih_pR, ih_pP, tok_parseFunctionParameters]
+    all_goals clear ih_pE ih_pR ih_pP
+    all_goals tok_close
+  · -- parseRemaining
+    intro pR pI ih_pR ih_pI left prec st r h
+    replace ih_pR := curry3 ih_pR; replace ih_pI := curry2 ih_pI
+    dsimp only at ih_pR ih_pI ⊢
+    obtain ⟨x, st'⟩ := r
+    have e0 := FL_eq st
+    pdecompD h [ih_pR, ih_pI, tok_parseFunctionParameters]
+    all_goals clear ih_pR ih_pI
+    all_goals tok_close
+  · -- parseInfixExpression
+    intro pE pL ih_pE ih_pL left st r h
+    replace ih_pE := curry3 ih_pE; replace ih_pL := curry2 ih_pL
+    dsimp only at ih_pE ih_pL ⊢
+    obtain ⟨x, st'⟩ := r
+    have e0 := FL_eq st
+    pdecompD h [ih_pE, ih_pL, tok_parseFunctionParameters]
+    all_goals clear ih_pE ih_pL
+    all_goals tok_close
+  · -- parseExpressionList
     intro pE eL ih_pE ih_eL endTy st r h
     replace ih_pE := curry3 ih_pE; replace ih_eL := curry2 ih_eL
     dsimp only at ih_pE ih_eL ⊢
@@ -86,6 +139,148 @@ theorem tokens_mutual (cfg : PCfg) :
     pdecompD h [ih_pE, ih_eL, tok_parseFunctionParameters]
     all_goals clear ih_pE ih_eL
     all_goals tok_close
+  · -- exprListLoop
+    intro pE eL ih_pE ih_eL acc st r h
+    replace ih_pE := curry3 ih_pE; replace ih_eL := curry2 ih_eL
+    dsimp only at ih_pE ih_eL ⊢
+    obtain ⟨x, st'⟩ := r
+    have e0 := FL_eq st
+    pdecompD h [ih_pE, ih_eL, tok_parseFunctionParameters]
+    all_goals clear ih_pE ih_eL
+    all_goals tok_close
+  · -- parsePrefixExpression
+    intro pE pL pFE pO ih_pE ih_pL ih_pFE ih_pO  st r h
+    replace ih_pE := curry3 ih_pE; replace ih_pL := curry2 ih_pL; replace ih_pFE := curry1 ih_pFE; replace ih_pO := curry1 ih_pO
+    dsimp only at ih_pE ih_pL ih_pFE ih_pO ⊢
+    obtain ⟨x, st'⟩ := r
+    have e0 := FL_eq st
+    pdecompD h [ih_pE, ih_pL, ih_pFE, ih_pO, tok_parseFunctionParameters]
+    all_goals clear ih_pE ih_pL ih_pFE ih_pO
+    all_goals tok_close
+  · -- parseFunctionExpression
+    intro pB ih_pB  st r h
+    replace ih_pB := curry1 ih_pB
+    dsimp only at ih_pB ⊢
+    obtain ⟨x, st'⟩ := r
+    have e0 := FL_eq st
+    pdecompD h [ih_pB, tok_parseFunctionParameters]
+    all_goals clear ih_pB
+    all_goals tok_close
+  · -- parseBlockStatement
+    intro bL ih_bL  st r h
+    replace ih_bL := curry2 ih_bL
+    dsimp only at ih_bL ⊢
+    obtain ⟨x, st'⟩ := r
+    have e0 := FL_eq st
+    pdecompD h [ih_bL, tok_parseFunctionParameters]
+    all_goals clear ih_bL
+    all_goals (simp only [elen_next, elen_push, elen_pop, elen_addError, elen_addErrorAt] at *)
+    all_goals first
+      | (refine ⟨?_, Or.inr ?_⟩ <;> omega)
+      | (refine ⟨?_, Or.inl ⟨by simp [Stmt.isNone], ?_⟩⟩
+         · omega
+         · spec_all (FL st)
+           simp only [FC_next, FL_push, StmtList.flat, F_nil, List.append_nil, forall_const] at *
+           simp only [FL_pop, FL_addError, cur_pop, cur_addError, Stmt.flat, F_cons_append, F_append, FL_eq]
+           simp_all [List.append_assoc, F_cons_slflat])
+  · -- blockLoop
+    intro pS bL ih_pS ih_bL acc st r h
+    replace ih_pS := curry2 ih_pS; replace ih_bL := curry2 ih_bL
+    dsimp only at ih_pS ih_bL ⊢
+    obtain ⟨x, st'⟩ := r
+    have e0 := FL_eq st
+    pdecompD h [ih_pS, ih_bL, tok_parseFunctionParameters]
+    all_goals clear ih_pS ih_bL
+    all_goals tok_close
+  · -- parseObjectLiteral
+    intro oL ih_oL  st r h
+    replace ih_oL := curry2 ih_oL
+    dsimp only at ih_oL ⊢
+    obtain ⟨x, st'⟩ := r
+    have e0 := FL_eq st
+    pdecompD h [ih_oL, tok_parseFunctionParameters]
+    all_goals clear ih_oL
+    all_goals tok_close
+  · -- objectLoop
+    intro pE oL ih_pE ih_oL acc st r h
+    replace ih_pE := curry3 ih_pE; replace ih_oL := curry2 ih_oL
+    dsimp only at ih_pE ih_oL ⊢
+    obtain ⟨x, st'⟩ := r
+    have e0 := FL_eq st
+    pdecompD h [ih_pE, ih_oL, tok_parseFunctionParameters]
+    all_goals clear ih_pE ih_oL
+    all_goals tok_close
+  · -- parseForStatement
+    intro pS pE pFI ih_pS ih_pE ih_pFI  st r h
+    replace ih_pS := curry2 ih_pS; replace ih_pE := curry3 ih_pE; replace ih_pFI := curry1 ih_pFI
+    dsimp only at ih_pS ih_pE ih_pFI ⊢
+    obtain ⟨x, st'⟩ := r
+    have e0 := FL_eq st
+    pdecompD h [ih_pS, ih_pE, ih_pFI, tok_parseFunctionParameters]
+    all_goals clear ih_pS ih_pE ih_pFI
+    all_goals tok_close
+  · -- parseForInit
+    intro pE pLE ih_pE ih_pLE  st r h
+    replace ih_pE := curry3 ih_pE; replace ih_pLE := curry1 ih_pLE
+    dsimp only at ih_pE ih_pLE ⊢
+    obtain ⟨x, st'⟩ := r
+    have e0 := FL_eq st
+    pdecompD h [ih_pE, ih_pLE, tok_parseFunctionParameters]
+    all_goals clear ih_pE ih_pLE
+    all_goals tok_close
+  · -- parseLetExpression
+    intro pE ih_pE  st r h
+    replace ih_pE := curry3 ih_pE
+    dsimp only at ih_pE ⊢
+    obtain ⟨x, st'⟩ := r
+    have e0 := FL_eq st
+    pdecompD h [ih_pE, tok_parseFunctionParameters]
+    all_goals clear ih_pE
+    all_goals tok_close
+  · -- parseWhileStatement
+    intro pS pE ih_pS ih_pE  st r h
+    replace ih_pS := curry2 ih_pS; replace ih_pE := curry3 ih_pE
+    dsimp only at ih_pS ih_pE ⊢
+    obtain ⟨x, st'⟩ := r
+    have e0 := FL_eq st
+    pdecompD h [ih_pS, ih_pE, tok_parseFunctionParameters]
+    all_goals clear ih_pS ih_pE
+    all_goals tok_close
+  · -- parseIfStatement
+    intro pS pE ih_pS ih_pE  st r h
+    replace ih_pS := curry2 ih_pS; replace ih_pE := curry3 ih_pE
+    dsimp only at ih_pS ih_pE ⊢
+    obtain ⟨x, st'⟩ := r
+    have e0 := FL_eq st
+    pdecompD h [ih_pS, ih_pE, tok_parseFunctionParameters]
+    all_goals clear ih_pS ih_pE
+    all_goals tok_close
+  · -- parseReturnStatement
+    intro pE ih_pE  st r h
+    replace ih_pE := curry3 ih_pE
+    dsimp only at ih_pE ⊢
+    obtain ⟨x, st'⟩ := r
+    have e0 := FL_eq st
+    pdecompD h [ih_pE, tok_parseFunctionParameters]
+    all_goals clear ih_pE
+    all_goals tok_close
+  · -- parseFunctionStatement
+    intro pB ih_pB  st r h
+    replace ih_pB := curry1 ih_pB
+    dsimp only at ih_pB ⊢
+    obtain ⟨x, st'⟩ := r
+    have e0 := FL_eq st
+    pdecompD h [ih_pB, tok_parseFunctionParameters]
+    all_goals clear ih_pB
+    all_goals tok_close
+  · -- parseLetStatement
+    intro pE ih_pE  st r h
+    replace ih_pE := curry3 ih_pE
+    dsimp only at ih_pE ⊢
+    obtain ⟨x, st'⟩ := r
+    have e0 := FL_eq st
+    pdecompD h [ih_pE, tok_parseFunctionParameters]
+    all_goals clear ih_pE
+    all_goals tok_close
 
-  all_goals sorry
 end Xjs
